@@ -172,6 +172,14 @@ def _run_comp(ctx, spec, rng):
     else:  # operators of different dtypes in one family (narrowest first)
         k_ops = gen.mixed_dtype_channel(rng, d, pattern)
         r, cplx = len(k_ops), pattern
+    if spec[1] % 5 == 3 and pattern == "uniform":
+        # the same operator listed twice (split into two equal halves) at arbitrary list positions: still a trace-preserving family
+        which = int(rng.integers(0, len(k_ops)))
+        half = k_ops[which] / np.sqrt(2)
+        k_ops = [k_ for i_, k_ in enumerate(k_ops) if i_ != which]
+        for _pos in range(2):
+            k_ops.insert(int(rng.integers(0, len(k_ops) + 1)), half.copy() if _pos else half)
+        r, cplx = len(k_ops), str(cplx) + "+repeated-operator"
     comp = ctx.call(complementary_channel, list(k_ops))
     if comp is not FAILED:
         rho = gen.density(rng, d, int(rng.integers(1, d + 1)))
